@@ -91,6 +91,13 @@ impl<T: AsPath> PossibleRouteMatch for StaticSegment<T> {
                 }
                 break;
             } else if n.is_none() {
+                // the segment is used up but the path segment goes on
+                // (e.g., "/foobar" tested against "foo"): this is only a
+                // match for the segments that have no text of their own
+                if !(self.0.as_path().is_empty() || self.0.as_path() == "/")
+                {
+                    return None;
+                }
                 break;
             }
             // if the next character in the path matches the
